@@ -572,6 +572,7 @@ Definition qmatch (en : env) (q : query) (v : option Z) : bool :=
 (* ================================================================ exact indices: B-tree / bitmap / flat *)
 (* the (value, row id) pairs an index holds; NULL rows are kept apart (null pages / null_map) *)
 Record sindex := {
+  ix_bitmap : bool;                (* BitmapIndex (true) or BTreeIndex (false) *)
   ix_frags : list N;               (* fragment_bitmap: the fragments the index covers *)
   ix_entries : list (Z * N);       (* sorted by value in the real structure; order is irrelevant to search *)
   ix_nulls : list N
@@ -580,6 +581,15 @@ Record sindex := {
 Definition rows_where (f : Z -> bool) (ix : sindex) : list N :=
   map snd (filter (fun e => f (fst e)) (ix_entries ix)).
 
+(* BitmapIndex::search hands the bounds to `BTreeMap::range`, which panics when start > end, or when
+   start = end and both are excluded *)
+Definition range_inverted (lo hi : bnd) : bool :=
+  match lo, hi with
+  | BIncl (LVal a), BIncl (LVal b) | BIncl (LVal a), BExcl (LVal b) | BExcl (LVal a), BIncl (LVal b) => (b <? a)%Z
+  | BExcl (LVal a), BExcl (LVal b) => (b <=? a)%Z
+  | _, _ => false
+  end.
+
 (* BTreeIndex::search / BitmapIndex::search / FlatIndex::search on a SargableQuery: always Exact.
    (Range(Unbounded, Unbounded) panics in flat.rs; QFn is not a SargableQuery: the downcast unwrap panics) *)
 Definition sarg_rows (q : query) (ix : sindex) : outcome (list N) :=
@@ -587,7 +597,9 @@ Definition sarg_rows (q : query) (ix : sindex) : outcome (list N) :=
   | QEquals LNull => Ok (ix_nulls ix)
   | QEquals (LVal v) => Ok (rows_where (fun x => (x =? v)%Z) ix)
   | QRange BUnb BUnb => Panic
-  | QRange lo hi => Ok (rows_where (fun x => above lo x && below hi x) ix)
+  | QRange lo hi =>
+      if ix_bitmap ix && range_inverted lo hi then Panic
+      else Ok (rows_where (fun x => above lo x && below hi x) ix)
   | QIsIn vs =>
       Ok (rows_where (fun x => existsb (fun l => lit_eqb_val l x) vs) ix
           ++ (if existsb lit_is_null vs then ix_nulls ix else []))
@@ -603,9 +615,10 @@ Definition sarg_search (q : query) (ix : sindex) : outcome search_result :=
   end.
 
 (* the index built over the rows of the covered fragments *)
-Definition build_index (c : N) (frags : list N) (tbl : list rowT) : sindex :=
+Definition build_index (bitmap : bool) (c : N) (frags : list N) (tbl : list rowT) : sindex :=
   let rows := filter (fun r => lmem (rfrag r) frags) tbl in
-  {| ix_frags := frags;
+  {| ix_bitmap := bitmap;
+     ix_frags := frags;
      ix_entries := flat_map (fun r => match val r c with Some v => [(v, rid r)] | None => [] end) rows;
      ix_nulls := flat_map (fun r => match val r c with Some _ => [] | None => [rid r] end) rows |}.
 
@@ -744,6 +757,20 @@ Fixpoint range_swap_hit (info : index_info) (r : rowT) (e : sexpr) : bool :=
 Definition Known_C19_range_bounds_swapped (info : index_info) (tbl : list rowT) (p : sexpr) : bool :=
   existsb (fun r => range_swap_hit info r p) tbl.
 
+(* ================================================================ finding: BitmapIndex panics on an empty range *)
+(* the index expression the translator builds has a Range leaf whose bounds are inverted (x >= 7 AND x <= 1,
+   x BETWEEN 7 AND 1, x > 5 AND x < 5) and the leaf is answered by a bitmap index *)
+Definition leaf_bitmap_inverted (ixs : N -> option sindex) (l : leaf) : bool :=
+  match ixs (l_idx l), l_query l with
+  | Some ix, QRange lo hi => ix_bitmap ix && range_inverted lo hi
+  | _, _ => false
+  end.
+Definition Known_C19_bitmap_inverted_range (info : index_info) (ixs : N -> option sindex) (p : sexpr) : bool :=
+  match apply_scalar_indices info p with
+  | Ok ie => match scalar_query ie with Some sq => existsb (leaf_bitmap_inverted ixs) (s_leaves sq) | None => false end
+  | _ => false
+  end.
+
 (* ================================================================ the domain *)
 (* what the index plugins construct: BloomFilterQueryParser::new(name, true) *)
 Definition parser_ok (p : parser) : bool := match p with PBloom rc => rc | _ => true end.
@@ -852,10 +879,10 @@ Fixpoint insert_sorted (x : N) (l : list N) : list N :=
   end.
 Definition sort_n (l : list N) : list N := fold_right insert_sorted [] l.
 
-Definition chk_leaf (i : list (option Z * N) * query) (o : outcome (list N)) : bool :=
-  let ix := {| ix_frags := [];
-               ix_entries := flat_map (fun e => match fst e with Some v => [(v, snd e)] | None => [] end) (fst i);
-               ix_nulls := flat_map (fun e => match fst e with Some _ => [] | None => [snd e] end) (fst i) |} in
+Definition chk_leaf (i : bool * list (option Z * N) * query) (o : outcome (list N)) : bool :=
+  let ix := {| ix_bitmap := fst (fst i); ix_frags := [];
+               ix_entries := flat_map (fun e => match fst e with Some v => [(v, snd e)] | None => [] end) (snd (fst i));
+               ix_nulls := flat_map (fun e => match fst e with Some _ => [] | None => [snd e] end) (snd (fst i)) |} in
   match sarg_rows (snd i) ix, o with
   | Ok rows, Ok got => list_eqb N.eqb (sort_n rows) got
   | Err, Err => true
@@ -869,14 +896,14 @@ Definition chk_leaf (i : list (option Z * N) * query) (o : outcome (list N)) : b
 Definition plain_env : env :=
   {| other_term := fun _ _ => None; other_pred := fun _ _ => None; fn_sem := fun _ _ _ => None |}.
 
-(* indices as printed: (index name, (column, covered fragments)) *)
-Definition ixs_of (tbl : list rowT) (l : list (N * (N * list N))) (name : N) : option sindex :=
+(* indices as printed: (index name, (column, covered fragments, is a bitmap index)) *)
+Definition ixs_of (tbl : list rowT) (l : list (N * (N * list N * bool))) (name : N) : option sindex :=
   match find (fun e => fst e =? name) l with
-  | Some e => Some (build_index (fst (snd e)) (snd (snd e)) tbl)
+  | Some e => Some (build_index (snd (snd e)) (fst (fst (snd e))) (snd (fst (snd e))) tbl)
   | None => None
   end.
 
-Definition chk_scan (i : list (N * (bool * list (N * parser))) * list (N * (N * list N)) * list (N * N * list (option Z)) * sexpr)
+Definition chk_scan (i : list (N * (bool * list (N * parser))) * list (N * (N * list N * bool)) * list (N * N * list (option Z)) * sexpr)
                     (o : outcome (list N)) : bool :=
   let '(info_l, ix_l, rows, p) := i in
   let tbl := map (fun r => mk_row (fst (fst r)) (snd (fst r)) (snd r)) rows in
@@ -889,8 +916,10 @@ Definition chk_scan (i : list (N * (bool * list (N * parser))) * list (N * (N * 
   end.
 
 (* the class predicate as evaluated by the harness *)
-Definition chk_class (i : list (N * (bool * list (N * parser))) * list (N * N * list (option Z)) * sexpr) (o : bool * bool) : bool :=
-  let '(info_l, rows, p) := i in
+Definition chk_class (i : list (N * (bool * list (N * parser))) * list (N * (N * list N * bool)) * list (N * N * list (option Z)) * sexpr)
+                     (o : bool * bool * bool) : bool :=
+  let '(info_l, ix_l, rows, p) := i in
   let tbl := map (fun r => mk_row (fst (fst r)) (snd (fst r)) (snd r)) rows in
-  Bool.eqb (Known_C19_not_over_nullable (info_of info_l) tbl p) (fst o) &&
-  Bool.eqb (Known_C19_range_bounds_swapped (info_of info_l) tbl p) (snd o).
+  Bool.eqb (Known_C19_not_over_nullable (info_of info_l) tbl p) (fst (fst o)) &&
+  Bool.eqb (Known_C19_range_bounds_swapped (info_of info_l) tbl p) (snd (fst o)) &&
+  Bool.eqb (Known_C19_bitmap_inverted_range (info_of info_l) (ixs_of tbl ix_l) p) (snd o).
